@@ -126,6 +126,10 @@ SPECIFIC_PATTERNS = [
     ("wconst", r"^Weight tensor must be constant$", ()),
     ("wsum", r"^The sum of the weights cannot exceed (\d+)$", ("WSumMax",)),
     ("bshape", r"^Optional Bias tensor must be of shape: 1D$", ()),
+    ("bshape_nonconst", r"^Optional Bias tensor must be of shape: 1D \(a constant Bias tensor of any other shape is reshaped "
+                        r"to 1D\)$", ()),
+    ("wsym", r"^Weight tensor zero points must be 0 when IFM is int8 or int16 \(unless --force-symmetric-int-weights is "
+             r"used\)$", ()),
     ("btype", r"^Optional Bias tensor must be of type: (.+)$", ("BiasTypes",)),
     ("b40", r"^Optional Bias tensor values must fit within (\d+)-bits$", ("BiasBits",)),
     ("dw_stride", r"^Stride values for both width and height must be between (\d+) and (\d+)$", ("DwSLo", "DwSHi")),
@@ -138,6 +142,8 @@ SPECIFIC_PATTERNS = [
     ("ap_stride_pad", r"^Stride width must be greater than or equal to (\d+)\. For stride width greater than (\d+), valid padding "
                       r"needs to be used\.$", ("ApSwMin", "ApSwValidAbove")),
     ("ap_filter", r"^Kernel filter values for both width and height must be in the range \[(\d+), (\d+)\]$", ("ApFLo", "ApFHi")),
+    ("ap_filter_same", r"^SAME padding: Kernel filter values for both width and height must be in the range \[(\d+), (\d+)\]$",
+     ("ApFLo", "ApFHi")),
     ("ap_vh", r"^VALID padding: Kernel filter height must be in the range \[(\d+), (\d+)\]$", ("ApVHLo", "ApVHHi")),
     ("ap_vprod", r"^VALID padding: Product of kernel filter width and height must be in the range \[(\d+), (\d+)\]$",
      ("ApVPLo", "ApVPHi")),
@@ -213,7 +219,7 @@ def constants(parsed):
                         continue
                     if cid in ("mp_h", "mp_prod") and op != "MAX_POOL_2D":
                         continue
-                    if cid in ("ap_filter",) and op != "AVERAGE_POOL_2D":
+                    if cid in ("ap_filter", "ap_filter_same") and op != "AVERAGE_POOL_2D":
                         continue
                     if cid == "pool_stride" and op not in ("MAX_POOL_2D",):
                         continue
